@@ -103,6 +103,9 @@ def run(ctx: core.Ctx) -> int:
                    func=f"ExtendedKalmanFilter.{_f}", construct="writes:" + ";".join(sorted(w.kind + " " + w.target for w in _ws)),
                    msg="the Jacobian function keeps state between calls: " + "; ".join(f"{w.kind} {w.target} (line {w.line})" for w in _ws),
                    line=_ws[0].line if _ws else None)
+    from . import c15 as _c15
+    ctx.rule("PY-PURE", "no module-level / class-level mutable state shared between filters (shared with C01)")
+    _c15.gen_pure(ctx, {"python": "py/formak/python.py", "common": "py/formak/common.py"}, rule="PY-PURE", floor=40)
     # the values of the compiled blocks go through python.BasicBlock: its temporaries protocol and trusted sympy signatures (shared with C01/C08)
     from .. import tmprules as _tmp
     for _rid, _t in (("TMP-1", "python prefix/body lambdify protocol"), ("TMP-2", "python execute protocol"), ("TMP-4", "CSE flag gates only cse()/simplify()"),
